@@ -216,6 +216,46 @@ def grad_case(case):
             "sample": {"target": where["target"], "K": K, "n": n, "scale": s, "affinity": tag, "table": table, "P": P}}
 
 
+def large_point_case(case):
+    """Hundreds to thousands of samples, up to 64 clusters: the score is the same with and without the gradient requested, and the gradient is the
+    derivative of the returned score along a few seed-generic logit directions (two-step central differences)."""
+    ti, K, n, seed = case
+    target, dist = TARGETS[ti]
+    cls, ovo = target
+    rs = np.random.RandomState(9000 + seed + 13 * K + n)
+    X = rs.normal(size=(n, 2))
+    kw = {}
+    g = _gemini(target, kw)
+    Aff = g.compute_affinity(X)
+    Z = rs.normal(size=(n, K)) * 1.5
+    P = softmax(Z)
+    where = dict(target=f"{cls}(ovo={ovo})", dist=dist, K=K, n=n, scale=1.5, affinity="default", epsilon=None)
+    v = []
+    s0, G = g(P.copy(), Aff, return_grad=True)
+    s1 = g(P.copy(), Aff)
+    G = np.asarray(G, dtype=float)
+    if G.shape != P.shape or not np.isfinite(G).all():
+        return {"v": [violation("grad_shape", f"gradient shape {np.shape(G)} / non-finite for predictions {P.shape}", **where)]}
+    if not abs(float(s0) - float(s1)) <= 1e-12 * max(1.0, abs(float(s0))):
+        v.append(violation("score_depends_on_return_grad", {"with": float(s0), "without": float(s1), "n": n, "K": K}, **where))
+    chain = P * (G - (P * G).sum(1, keepdims=True))
+    nd = 0
+    for t in range(3):
+        D = rs.normal(size=Z.shape)
+        D /= np.sqrt((D * D).sum())
+        ests = [(float(g(softmax(Z + h * D), Aff)) - float(g(softmax(Z - h * D), Aff))) / (2 * h) for h in (1e-3, 1e-3 / 8)]
+        an = float((chain * D).sum())
+        sc = max(abs(ests[1]), abs(an))
+        if abs(ests[0] - ests[1]) > 1e-4 * sc + 1e-9:
+            continue
+        nd += 1
+        if abs(an - ests[1]) > 1e-4 * sc + 1e-8:
+            v.append(violation("gradient_mismatch", {"direction": t, "analytic_directional": an, "numeric": ests[1], "n": n, "K": K, "score": float(s0)}, **where))
+            break
+    return {"v": v[:3], "nt": [case] if nd else [], "stats": {"evals": 1, "differentiable": int(nd > 0), "kinks": int(nd == 0)},
+            "sample": {"target": where["target"], "K": K, "n": n}}
+
+
 TARGETS = [(("KLGEMINI", False), "kl"), (("KLGEMINI", True), "kl"), (("MI", False), "kl"),
            (("TVGEMINI", False), "tv"), (("TVGEMINI", True), "tv"),
            (("HellingerGEMINI", False), "hellinger"), (("HellingerGEMINI", True), "hellinger"),
@@ -263,7 +303,14 @@ def explorers(tier, seed):
             nrows = len(list(ref.compositions(K + 2, K)))
             for idx in itertools.product(range(nrows), repeat=n):
                 cases.append((target, dist, K, n, 1.0, tags_full[0], ("lat", idx), seed))
-    return [Explorer("softmax_chain_and_tangents", "props.c02", "grad_case", cases, chunk=8, floor=500,
+    big = []
+    for ti, (target, dist) in enumerate(TARGETS):
+        shapes_b = {"wasserstein": [(3, 301)], "mmd": [(3, 700), (12, 601)]}.get(dist, [(3, 700), (16, 300), (12, 1000), (32, 1500), (64, 701)] + ([(5, 2049), (40, 3001)] if thorough else []))
+        big += [(ti, K, n, seed) for K, n in shapes_b]
+    return [Explorer("large_points", "props.c02", "large_point_case", big, chunk=1, floor=20, case_timeout=1500,
+                     rule="13 class/flag targets on hundreds to thousands of samples and up to 64 clusters: score identical with and without the gradient requested; "
+                          "gradient vs two-step central differences of the returned score along three seed-generic logit directions"),
+            Explorer("softmax_chain_and_tangents", "props.c02", "grad_case", cases, chunk=8, floor=500,
                      rule="every (class, ovo) x shape (n,K) x logit scale x logit table (seed-generic tables; ALL n-tuples of perturbed "
                           "interior-lattice rows for n*K<=6 to sweep TV sign patterns / OT bases) x affinity menu; "
                           "non-trivial = point judged differentiable by the two-step rule with a non-zero derivative; "
